@@ -5,7 +5,7 @@
    from the Go source on every run. *)
 From Coq Require Import ZArith List Bool Lia.
 Import ListNotations.
-From Verif Require Import Lib.Corr Lib.Compact_List Gen.C30 Model.C30 Proofs.C30.
+From Verif Require Import Lib.Corr Lib.Compact_List Gen.C30 Model.C30 Proofs.C30 Proofs.C30_regime Proofs.C30_iter.
 Open Scope Z_scope.
 
 (* The planner never panics on a non-empty group when at least one range is
@@ -119,12 +119,86 @@ Example C30_converges_nonvacuous :
   option_map fst (iterate (S (measure l)) [20; 60] [] l 100) = Some [[1; 2]; [3; 4]].
 Proof. vm_compute. reflexivity. Qed.
 
-(* Reading of "no longer than the largest range": it is claimed (C30_fits_range) for
-   plans over non-overlapping blocks.  A vertical merge of an overlapping chain can
-   legitimately span more than the largest range (documented, not an alarm): *)
-Example C30_overlap_can_exceed :
+(* ---- "Repeatedly planning and applying plans ends ... with non-overlapping blocks
+   no longer than the largest range" -------------------------------------------------
+
+   History invariant 1 (any positive ranges): if the group is sorted by MinTime,
+   blocks have positive length, the not-excluded blocks do not overlap and every
+   block lies inside one aligned window of SOME configured range ("aligned"),
+   then one plan/apply step keeps all of that ... *)
+Theorem C30_regime_step : forall ranges marks l p newid,
+  positive_ranges ranges -> Reg ranges marks l -> plan ranges marks l = Some p -> p <> [] ->
+  Reg ranges marks (apply_plan l p newid).
+Proof. exact reg_step. Qed.
+Print Assumptions C30_regime_step.
+
+(* ... hence plan/apply to the fixpoint ends, within the measure, in a state that is
+   again in the regime: non-overlapping, aligned, and every block no longer than
+   the largest range. *)
+Theorem C30_aligned_history : forall ranges marks l newid,
+  ranges <> [] -> positive_ranges ranges -> l <> [] -> wf l -> Reg ranges marks l ->
+  exists h fin, iterate (S (measure l)) ranges marks l newid = Some (h, fin) /\
+    plan ranges marks fin = Some [] /\ (length h <= measure l)%nat /\
+    Reg ranges marks fin /\
+    disjoint_sorted (filter (unmarked marks) fin) /\
+    Forall (fun m => maxt m - mint m <= maxr ranges) fin.
+Proof. exact regime_history. Qed.
+Print Assumptions C30_aligned_history.
+
+(* History invariant 2 (every configured range divides the largest one, as with
+   Thanos' 2h/8h/2d/14d): for ALL groups — overlapping or not, excluded blocks or
+   not — whose blocks each lie inside one window of the largest range, plan/apply
+   to the fixpoint keeps every block inside one window of the largest range; at
+   the fixpoint the not-excluded blocks do not overlap and no block is longer
+   than the largest range.  (Vertical merges of aligned blocks stay inside the
+   window: overlapping blocks of positive length share their window.) *)
+Theorem C30_window_history : forall ranges marks l newid,
+  ranges <> [] -> positive_ranges ranges -> Forall (fun iv => (iv | maxr ranges)) ranges ->
+  l <> [] -> wf l -> Win ranges l ->
+  exists h fin, iterate (S (measure l)) ranges marks l newid = Some (h, fin) /\
+    plan ranges marks fin = Some [] /\ (length h <= measure l)%nat /\
+    disjoint_sorted (filter (unmarked marks) fin) /\
+    Forall (in_some_win (maxr ranges)) fin /\
+    Forall (fun m => maxt m - mint m <= maxr ranges) fin.
+Proof. exact window_history. Qed.
+Print Assumptions C30_window_history.
+
+(* When the largest range IS exceeded: only outside those regimes.  For every
+   largest range R > 1 the misaligned overlapping chain [0,R), [R-1,2R-1) — each
+   block exactly R long, sorted, positive — is planned as a whole (vertical
+   merge) and replaced by a block 2R-1 > R long; the input is not in the regime. *)
+Theorem C30_overlap_can_exceed : forall R, 1 < R ->
+  plan [R] [] (chain R) = Some (chain R)
+  /\ Forall (fun m => maxt m - mint m <= maxr [R]) (chain R)
+  /\ sorted_mint (chain R) /\ Forall pos (chain R)
+  /\ maxt (hull (chain R) 3) - mint (hull (chain R) 3) = 2 * R - 1
+  /\ maxr [R] < maxt (hull (chain R) 3) - mint (hull (chain R) 3)
+  /\ ~ Reg [R] [] (chain R).
+Proof. exact overlap_can_exceed. Qed.
+Print Assumptions C30_overlap_can_exceed.
+
+(* Whole histories through the boolean predicate of the check (case CIter): the
+   model's history satisfies it, including the window clause when the input is in
+   the window regime; "corr_ok on the case" transfers this to the real planner's history. *)
+Theorem C30_iter_pred : forall ranges marks l newid,
+  ranges <> [] -> positive_ranges ranges -> l <> [] -> wf l -> sorted_mint l -> fresh_ok l newid ->
+  exists h fin, iterate (S (measure l)) ranges marks l newid = Some (h, fin) /\
+    corr_ok (CIter ranges marks l newid h) = true /\ pred_ok (CIter ranges marks l newid h) = true.
+Proof. exact iter_pred_ok. Qed.
+Print Assumptions C30_iter_pred.
+
+(* Non-vacuity of the regimes: replicated aligned 2h-style blocks with ranges 20/60/180. *)
+Example C30_regimes_nonvacuous :
   let b i a z := mk_meta i a z false 0 10 1 in
-  let l := [b 1 0 40; b 2 30 70; b 3 60 100] in
-  option_map (map bid) (plan [20; 60] [] l) = Some [1; 2; 3]
-  /\ maxt (hull l 9) - mint (hull l 9) = 100.
-Proof. vm_compute. split; reflexivity. Qed.
+  let l := [b 1 0 20; b 2 0 20; b 3 20 40; b 4 40 60; b 5 60 80; b 6 60 120; b 7 180 200] in
+  win_regime [20; 60; 180] l = true
+  /\ option_map fst (iterate (S (measure l)) [20; 60; 180] [] l 100) = Some [[1; 2]; [5; 6]; [100; 3; 4]]
+  /\ Reg [20; 60; 180] [] [b 1 0 20; b 3 20 40; b 4 40 60; b 7 180 200].
+Proof.
+  cbv zeta. split; [vm_compute; reflexivity|]. split; [vm_compute; reflexivity|].
+  unfold Reg, sorted_mint, sdisj, srel, pos, aligned. simpl. repeat split; repeat constructor; simpl; try lia.
+  - exists 20, 0. simpl. intuition lia.
+  - exists 20, 1. simpl. intuition lia.
+  - exists 20, 2. simpl. intuition lia.
+  - exists 20, 9. simpl. intuition lia.
+Qed.
